@@ -43,7 +43,8 @@ RULE = ("Hypothesis-generated cases (chart kind x type x start state {new deck, 
         "through the full oracle. Non-trivial: some reference has a column >= AA, category depth >= 2, XY/bubble "
         "series of unequal lengths, a None value, a formula-/URL-looking string, date categories, or a date1904 "
         "chart. Distinct by hash of the data shape (kind, chart type class, depth, leaf count, series lengths, "
-        "None positions, label/name classes, date system, step kind).")
+        "None positions, label/name classes, date system, step kind). The 16384 column numbers are distinct by "
+        "construction; n >= 27 (multi-letter reference) counts as non-trivial there.")
 ASSUMPTIONS = [
     "numbers are compared with relative tolerance 1e-15: XlsxWriter stores 16 significant digits ('%.16G') while "
     "the cache holds repr(); a 17th-digit difference is not counted as disagreement (count in "
@@ -63,7 +64,10 @@ ASSUMPTIONS = [
     "1904-01-01 for date1904 charts); multi-level labels are strings; >= 1 category; replace_data is given "
     ">= 1 series and starts from a chart holding >= 1 series (F19 belongs to C07)",
     "datetime labels: the workbook may hold either the day serial or day serial + time fraction (cell-vs-input); "
-    "the cached point must still equal the cell",
+    "the cached point must still equal the cell; every disagreement on a datetime (not date) label is keyed "
+    "C08:datetime-label:* (one root cause: the datetime object is handed to XlsxWriter unconverted)",
+    "a pie plot written by add_chart holds only the first supplied series (C07's clause); its references are "
+    "judged, the surplus workbook columns are not",
     "the date1904 / no-externalData start states are produced by rewriting the saved package (as if authored "
     "elsewhere), never by touching python-pptx objects",
 ]
